@@ -98,11 +98,33 @@ type customTable struct {
 	funcs map[string][]reflect.Value // "T.id" -> per fn
 	index map[string][]int           // "T.id" -> field index path inside ComplexityRoot
 	all   []string                   // all "Object.field" names, sorted
+	extra int                        // members outside the schema table
 }
 
 func buildCustomTable() (*customTable, error) {
 	ct := &customTable{typ: reflect.TypeOf(graph.ComplexityRoot{}), funcs: map[string][]reflect.Value{}, index: map[string][]int{}}
-	covered := 0
+	mk := func(ft reflect.Type) []reflect.Value {
+		fns := make([]reflect.Value, NumFn)
+		for fn := 1; fn < NumFn; fn++ {
+			fn := fn
+			fns[fn] = reflect.MakeFunc(ft, func(args []reflect.Value) []reflect.Value {
+				child := int(args[0].Int())
+				var x *int
+				ylen := 0
+				for _, a := range args[1:] {
+					switch v := a.Interface().(type) {
+					case *int:
+						x = v
+					case []string:
+						ylen = len(v)
+					}
+				}
+				return []reflect.Value{reflect.ValueOf(intFn(fn, child, x, ylen))}
+			})
+		}
+		return fns
+	}
+	known := map[string]bool{} // "Object.GoMember" of the table's fields
 	for obj, td := range schemaTab {
 		if td.Kind != "OBJECT" {
 			continue
@@ -119,39 +141,26 @@ func buildCustomTable() (*customTable, error) {
 			key := obj + "." + f.Name
 			ct.index[key] = append(append([]int{}, of.Index...), ff.Index...)
 			ct.all = append(ct.all, key)
-			fns := make([]reflect.Value, NumFn)
-			for fn := 1; fn < NumFn; fn++ {
-				fn := fn
-				ft := ff.Type
-				fns[fn] = reflect.MakeFunc(ft, func(args []reflect.Value) []reflect.Value {
-					child := int(args[0].Int())
-					var x *int
-					ylen := 0
-					for _, a := range args[1:] {
-						switch v := a.Interface().(type) {
-						case *int:
-							x = v
-						case []string:
-							ylen = len(v)
-						default:
-							panic(fmt.Sprintf("unexpected complexity argument type %T", v))
-						}
-					}
-					return []reflect.Value{reflect.ValueOf(intFn(fn, child, x, ylen))}
-				})
-			}
-			ct.funcs[key] = fns
-			covered++
+			ct.funcs[key] = mk(ff.Type)
+			known[obj+"."+ff.Name] = true
 		}
 	}
-	// every member of ComplexityRoot must be known to the table (Subscription.tick is the
-	// only one outside the grammar's types)
-	total := 0
+	// members for types/fields outside the schema table (the shared probe schema may carry
+	// more than this check's grammar uses): never relevant to an operation of the grammar, they
+	// only take part in the "functions on untouched fields do not matter" assignment
 	for i := 0; i < ct.typ.NumField(); i++ {
-		total += ct.typ.Field(i).Type.NumField()
-	}
-	if total != covered+1 {
-		return nil, fmt.Errorf("ComplexityRoot has %d members, schema table covers %d (+Subscription.tick)", total, covered)
+		of := ct.typ.Field(i)
+		for j := 0; j < of.Type.NumField(); j++ {
+			ff := of.Type.Field(j)
+			if known[of.Name+"."+ff.Name] {
+				continue
+			}
+			key := of.Name + ".(go)" + ff.Name
+			ct.index[key] = []int{i, j}
+			ct.all = append(ct.all, key)
+			ct.funcs[key] = mk(ff.Type)
+			ct.extra++
+		}
 	}
 	sort.Strings(ct.all)
 	return ct, nil
@@ -224,7 +233,7 @@ func someValue(t reflect.Type) reflect.Value {
 		ch.Close()
 		return ch.Convert(t)
 	}
-	panic("someValue: " + t.String())
+	return reflect.Zero(t) // types outside this check's grammar (other checks' probe fields)
 }
 
 // newStub returns a Stub whose every resolver logs its name and returns a non-null value, so
